@@ -581,7 +581,15 @@ def run(F, sel=None):
         e = exempt_for("R1a", fk)
         for (kind, what), ss in sorted(groups.items()):
             sid = "%s|%s:%s" % (fk, kind, what)
-            if e and (not e.get("sinks") or ("%s:%s" % (kind, what)) in e["sinks"]):
+            delegated = False
+            if e and kind == "call" and "call:mapv" in (e.get("sinks") or ()):
+                # the reviewed lift (x.mapv(D::from), legal together with R2's sweeps) moved, with the sweeps, into a private helper of
+                # the same impl that only this function calls: R2 judges the helper
+                hb_ = F.body(fk.rsplit("::", 1)[0] + "::" + what)
+                if hb_ is not None and hb_.get("vis") != "Public" and set(callers_of(hb_.path)) <= {fk} \
+                        and any(str(callee(t_)[2]) == "mapv" and (hb_.lty(t_["dest"]["l"]) or {}).get("dual") for _bi, t_ in hb_.calls()):
+                    delegated = True
+            if e and (delegated or not e.get("sinks") or ("%s:%s" % (kind, what)) in e["sinks"]):
                 ra.inst("flow|" + sid, ss[0]["where"], "exempt", reason=e["reason"], sites=len(ss))
             else:
                 ra.inst("flow|" + sid, ss[0]["where"], "violation", sites=[s["where"] for s in ss])
